@@ -1,1 +1,2 @@
+pub mod css;
 pub mod pathres;
